@@ -4,7 +4,7 @@ per-round tallies (stderr)."""
 import json, os, re, sys
 root = '/verif/seeded'
 rows, stats = [], {}
-rnd_of = {'a': 1, 'b': 1, 'c': 2, 'd': 2, 'e': 3, 'f': 3, 'g': 4, 'h': 4, 'i': 5, 'j': 5, 'k': 6, 'l': 6, 'm': 7, 'n': 7, 'o': 8, 'p': 8, 'q': 9, 'r': 9, 's': 10, 't': 10}
+rnd_of = {'a': 1, 'b': 1, 'c': 2, 'd': 2, 'e': 3, 'f': 3, 'g': 4, 'h': 4, 'i': 5, 'j': 5, 'k': 6, 'l': 6, 'm': 7, 'n': 7, 'o': 8, 'p': 8, 'q': 9, 'r': 9, 's': 10, 't': 10, 'u': 11, 'v': 11}
 for d in sorted(os.listdir(root)):
     p = os.path.join(root, d, 'meta.json')
     if not os.path.exists(p):
@@ -15,7 +15,7 @@ for d in sorted(os.listdir(root)):
     own = ', '.join(cb.get(pid, [])) or '—'
     also = ', '.join(k for k in sorted(cb) if k != pid) or '—'
     st = m.get('status')
-    title = re.sub(r'^C\d\d\s*(/|seed)?\s*(change\s*)?[a-t]\s*[—:\-–]+\s*', '', m.get('title', '')).strip()[:95]
+    title = re.sub(r'^C\d\d\s*(/|seed)?\s*(change\s*)?[a-v]\s*[—:\-–]+\s*', '', m.get('title', '')).strip()[:95]
     if st == 'superseded':
         own = '(no longer applies: superseded by fix f2a8ddd)'
     elif st == 'MISSED':
